@@ -25,6 +25,7 @@ type Program struct {
 	Overlay map[string]string // virtual path -> real path (for go test -overlay)
 	RepoDir string
 	LoadMs  int64
+	Dropped []string // harness packages left out because they do not build against this tree (dir: errors)
 }
 
 // executed package prefixes: bodies interpreted from SSA (models take priority).
@@ -130,16 +131,50 @@ func BuildOverlay(cfg LoadConfig) (overlayFiles map[string]string, pkgDirs []str
 	return
 }
 
+// Load loads the repository with the harness files overlaid. A harness package that no longer builds against the
+// tree (the tree renamed or removed something a harness calls) is left out and named in Program.Dropped - no verdict
+// for its harnesses - as long as every build error sits in a harness file; an error anywhere else is an error of Load.
 func Load(cfg LoadConfig) (*Program, error) {
+	var dropped []string
+	skip := map[string]bool{}
+	for {
+		c := cfg
+		c.Only = func(dir, file string) bool { return !skip[dir] && (cfg.Only == nil || cfg.Only(dir, file)) }
+		p, bad, err := load(c)
+		if err == nil {
+			p.Dropped = dropped
+			return p, nil
+		}
+		if len(bad) == 0 {
+			return nil, err
+		}
+		for _, d := range bad {
+			skip[d] = true
+			msg := err.Error()
+			if len(msg) > 600 {
+				msg = msg[:600]
+			}
+			dropped = append(dropped, d+": "+strings.ReplaceAll(msg, "\n", " | "))
+		}
+	}
+}
+
+// load is one attempt; on build errors that all sit in harness files it also returns the harness directories at fault.
+func load(cfg LoadConfig) (*Program, []string, error) {
+	p, badDirs, err := load1(cfg)
+	return p, badDirs, err
+}
+
+func load1(cfg LoadConfig) (*Program, []string, error) {
 	ov, dirs, err := BuildOverlay(cfg)
 	if err != nil {
-		return nil, err
+		return nil, nil, err
 	}
 	overlay := map[string][]byte{}
 	for virt, real := range ov {
 		data, err := os.ReadFile(real)
 		if err != nil {
-			return nil, err
+			return nil, nil, err
 		}
 		overlay[virt] = data
 	}
@@ -154,7 +189,7 @@ func Load(cfg LoadConfig) (*Program, error) {
 		BuildFlags: []string{"-tags=verif"}, Env: env}
 	lp, err := packages.Load(lcfg, patterns...)
 	if err != nil {
-		return nil, err
+		return nil, nil, err
 	}
 	want := map[string]bool{}
 	packages.Visit(lp, nil, func(p *packages.Package) {
@@ -179,19 +214,40 @@ func Load(cfg LoadConfig) (*Program, error) {
 	}
 	pkgs, err := packages.Load(pcfg, all...)
 	if err != nil {
-		return nil, err
+		return nil, nil, err
 	}
 	var errs []string
+	allInHarness := true
+	badSet := map[string]bool{}
 	packages.Visit(pkgs, nil, func(p *packages.Package) {
 		for _, e := range p.Errors {
 			errs = append(errs, e.Error())
+			dir := strings.TrimPrefix(strings.TrimPrefix(p.PkgPath, RepoModule), "/")
+			isHarnessDir := false
+			for _, d := range dirs {
+				if d == dir {
+					isHarnessDir = true
+				}
+			}
+			if isHarnessDir && strings.Contains(e.Error(), "zz_verif") {
+				badSet[dir] = true
+			} else {
+				allInHarness = false
+			}
 		}
 	})
 	if len(errs) > 0 {
 		if len(errs) > 20 {
 			errs = errs[:20]
 		}
-		return nil, fmt.Errorf("package load errors:\n%s", strings.Join(errs, "\n"))
+		var bad []string
+		if allInHarness {
+			for d := range badSet {
+				bad = append(bad, d)
+			}
+			sort.Strings(bad)
+		}
+		return nil, bad, fmt.Errorf("package load errors:\n%s", strings.Join(errs, "\n"))
 	}
 	prog, _ := ssautil.Packages(pkgs, ssa.InstantiateGenerics)
 	prog.Build()
@@ -209,7 +265,7 @@ func Load(cfg LoadConfig) (*Program, error) {
 	for _, sp := range prog.AllPackages() {
 		p.SSAPkgs[sp.Pkg.Path()] = sp
 	}
-	return p, nil
+	return p, nil, nil
 }
 
 // Harnesses lists the VerifHarness_<prop>_* functions of the loaded packages.
